@@ -179,6 +179,11 @@ void gen_samples(const psig_t *ps, uint64_t vseed, int64_t sid, uint32_t n, uint
         int pat = ps->pattern;
         int cls = 3;
         if (pat == PAT_BLOCKCONST) cls = (int) (hb % 5);
+        if (pat == PAT_LONGZERO) {
+            int64_t run = (32768LL * 8 / bits) / blk + 2 + (int64_t) (ps->pseed % 3);
+            pat = PAT_BLOCKCONST;
+            cls = (bidx >= 2 && bidx < 2 + run) ? 0 : 3;
+        }
         /* class 4: constant block except for one to three samples next to its edges (second sample, within the first
          * byte, last sample) - the inputs on which a constant-block detector that skips a byte goes wrong */
         int dev = 0;
